@@ -182,3 +182,89 @@ void harness_format(void)
 		VP_WITNESS("truncated response");
 	}
 }
+
+/* ---- unit step: dnsname_to_labels under an arbitrary valid compression table ----
+ * Pre-state (representation invariant of the formatter's loop): a message prefix buf[0..j0)
+ * of symbolic bytes and a table of <= C35_T entries, each mapping the text v to a position
+ * pos < j0 where the prefix decodes (reference decoder) to exactly v.  One call encodes a
+ * symbolic encodable name at j0.  Post: the name decodes back, pointers point strictly
+ * backwards, nothing outside [j0, min(r, buf_len)) is written, and every table entry (old and
+ * new) still satisfies the invariant w.r.t. the longer message -- so by induction over the calls
+ * of one formatting run every name in the response decodes to what was added. */
+#ifndef C35_B
+#define C35_B 24
+#endif
+#ifndef C35_J0
+#define C35_J0 10
+#endif
+#ifndef C35_T
+#define C35_T 2
+#endif
+void harness_labels(void)
+{
+	u8 *buf = malloc(C35_B);
+	u8 orig[C35_B];
+	struct dnslabel_table table;
+	char name[C35_N + 1], dn[C35_N + 2], ev[C35_N + 2];
+	int j0 = (int)vp_range(0, C35_J0), n = (int)vp_range(0, C35_T), i, k, nlen, r0, txt, nx, wire;
+	size_t buf_len = (size_t)vp_range(0, C35_B);
+	off_t r;
+	__CPROVER_assume(buf != NULL);
+	__CPROVER_assume((size_t)j0 <= buf_len);
+	vp_bytes(buf, C35_B);
+	for (k = 0; k < C35_B; k++) orig[k] = buf[k];
+	dnslabel_table_init(&table);
+	for (i = 0; i < C35_T; i++) if (i < n) {
+		int pos = (int)vp_range(0, C35_J0);
+		__CPROVER_assume(pos < j0);
+		r0 = dnsref_name(buf, j0, pos, ev, (int)sizeof(ev) - 1, NULL, &txt, NULL);
+		__CPROVER_assume(r0 == DNSREF_OK);
+		r0 = dnslabel_table_add(&table, ev, pos);
+		VP_ASSERT(r0 == 0, "C35: dnslabel_table_add failed below MAX_LABELS");
+	}
+	nlen = c35_name(name);
+	dnsref_name_fwdptr = 0;
+
+	r = dnsname_to_labels(buf, buf_len, j0, name, (size_t)nlen, &table);
+
+#ifdef C35_KF_EXCLUDE_TERM
+	/* executions in which the terminating zero octet is stored at buf[buf_len] (finding
+	 * C35-labels-terminator-overflow) are decided by the obligation without this define */
+	__CPROVER_assume(r != (off_t)buf_len + 1);
+#endif
+	for (k = 0; k < C35_B; k++) {
+		if (k < j0) VP_ASSERT(buf[k] == orig[k], "C35: dnsname_to_labels changed bytes before its start offset");
+		if ((size_t)k >= buf_len) VP_ASSERT(buf[k] == orig[k], "C35: dnsname_to_labels wrote at or beyond buf_len (buffer overflow)");
+	}
+	wire = nlen + ((nlen > 0 && name[nlen - 1] == '.') ? 1 : 2); /* uncompressed length */
+	if (nlen == 0) wire = 1;
+	if (r < 0) {
+		VP_ASSERT(r == -2, "C35: encodable name refused with a code other than 'does not fit'");
+		/* +1: a pointer to an earlier root label costs 2 octets where the root itself costs 1 */
+		VP_ASSERT((size_t)(j0 + wire + 1) > buf_len, "C35: name refused although even its uncompressed form fits the buffer");
+		VP_WITNESS("name does not fit the buffer");
+		dnslabel_clear(&table);
+		return;
+	}
+	VP_ASSERT(r > j0 && (size_t)r <= buf_len, "C35: returned offset not within (j, buf_len]");
+	if (!(r > j0 && (size_t)r <= buf_len)) return;
+	r0 = dnsref_name(buf, (int)r, j0, dn, (int)sizeof(dn), &nx, &txt, NULL);
+	VP_ASSERT(r0 == DNSREF_OK, "C35: encoded name does not decode");
+	if (r0 != DNSREF_OK) return;
+	VP_ASSERT(c35_same_name(dn, txt, name), "C35: encoded name decodes to a different name");
+	VP_ASSERT(nx == (int)r, "C35: returned offset != end of the encoded name");
+	VP_ASSERT(dnsref_name_fwdptr == 0, "C35: a compression pointer does not point strictly backwards");
+	VP_ASSERT(table.n_labels >= n && table.n_labels <= n + (C35_N + 1) / 2 + 1, "C35: table size after the call");
+	for (i = 0; i < C35_T + (C35_N + 1) / 2 + 1; i++) if (i < table.n_labels) {
+		int pos = (int)table.labels[i].pos;
+		VP_ASSERT(pos >= 0 && pos < (int)r && pos < 0x4000, "C35: table position outside the message / not expressible in 14 bits");
+		if (!(pos >= 0 && pos < (int)r)) return;
+		r0 = dnsref_name(buf, (int)r, pos, dn, (int)sizeof(dn), NULL, &txt, NULL);
+		VP_ASSERT(r0 == DNSREF_OK && c35_same_name(dn, txt, table.labels[i].v), "C35: compression table entry does not decode to its text (later pointers to it would be wrong)");
+	}
+	if (dnsref_name_nptr > 0) VP_WITNESS("name encoded with a compression pointer");
+	if (table.n_labels > n + 1) VP_WITNESS("two new suffixes registered");
+	if (nlen > 0 && name[nlen - 1] == '.') VP_WITNESS("absolute name encoded");
+	dnslabel_clear(&table);
+	VP_ASSERT(c35_live == 0, "C35: dnslabel_clear leaks table strings");
+}
